@@ -208,7 +208,7 @@ class BlobExchangeClientProtocol(asyncio.Protocol):
             if self.writer and not self.writer.closed():
                 self.writer.close_handle()
                 self.writer = None
-            if length_was_unknown and not blob.get_is_verified() and \
+            if length_was_unknown and not blob.get_is_verified() and blob.is_writeable() and \
                     all(writer.closed() for writer in blob.writers.values()):
                 # the length was only this peer's claim and the transfer failed: forget it, otherwise a peer
                 # announcing a wrong length makes every later download of this blob fail
